@@ -8,6 +8,7 @@ relative to a solution `M` of the completion equation (`IsModel`).
 -/
 namespace ProbLogProofs.GroundEval
 open ProbLogModel ProbLogModel.Formula ProbLogModel.GroundAcyclic ProbLogProofs.GroundSem ProbLogProofs.GroundInv
+open ProbLogProofs.GroundNames
 open ProbLogModel.Sem (getB)
 
 def itemTrue (chosen : Array Bool) (M : Atom → Bool) : Item → Bool
@@ -54,8 +55,8 @@ theorem evalItem_spec {chosen : Array Bool} {M : Atom → Bool} {ev : Eval} (i :
             (some (.pos c.name))).1 }) := rfl
     generalize st.store.addAtom (.user c.ident) .normal (.prob c.prob) (some c.group) (some (.pos c.name)) = R
       at h he
-    obtain ⟨hs, hg, hf, hd⟩ := h
-    obtain ⟨hi', hx'⟩ := hinv.store_step hs hg
+    obtain ⟨hs, hg, hn, hf, hd⟩ := h
+    obtain ⟨hi', hx'⟩ := hinv.store_step hs hg hn
     rw [hf] at he
     exact ⟨_, _, he, hi', hx', fun k hk => (by cases hk; exact hd.1), fun ρ hρ => hd.2 ρ hρ⟩
   | lit l =>
@@ -77,9 +78,9 @@ theorem evalItem_spec {chosen : Array Bool} {M : Atom → Bool} {ev : Eval} (i :
           rw [keyVal_none] at this
           show true = !M a
           rw [← this]; rfl
-      · obtain ⟨S2, k', ho, hs2, hg2, hb2, hsem⟩ := addOr_step hi1.s [k] (by simp)
+      · obtain ⟨S2, k', ho, hs2, hg2, hn2, hb2, hsem⟩ := addOr_step hi1.s [k] (by simp)
           (fun c hc => by rw [List.mem_singleton.1 hc]; exact hd.1)
-        obtain ⟨hi2, hx2⟩ := hi1.store_step hs2 hg2
+        obtain ⟨hi2, hx2⟩ := hi1.store_step hs2 hg2 hn2
         refine ⟨if Formula.isFalse (negate k') then none else some (negate k'), { st1 with store := S2 }, ?_, hi2,
           hx1.trans hx2, ODen.of_den ⟨keyBelow_negate _ _ hb2, fun ρ hρ => ?_⟩⟩
         · simp only [evalItem, he, bind, Except.bind, pure, Except.pure, hk, ho, liftB]
@@ -132,12 +133,12 @@ theorem evalItems_spec {chosen : Array Bool} {M : Atom → Bool} {ev : Eval} :
         | some k2 =>
           have hb1 : keyBelow st2.store.nodes.length k1 :=
             keyBelow_mono (grows_length hx2.grows) (hd1.1 k1 rfl)
-          obtain ⟨S3, k, ha, hs3, hg3, hb3, hsem⟩ := addAnd_step hi2.s [k1, k2] (by simp)
+          obtain ⟨S3, k, ha, hs3, hg3, hn3, hb3, hsem⟩ := addAnd_step hi2.s [k1, k2] (by simp)
             (fun c hc => by
               rcases List.mem_cons.1 hc with h | h
               · rw [h]; exact hb1
               · rw [List.mem_singleton.1 h]; exact hd2.1 k2 rfl)
-          obtain ⟨hi3, hx3⟩ := hi2.store_step hs3 hg3
+          obtain ⟨hi3, hx3⟩ := hi2.store_step hs3 hg3 hn3
           refine ⟨some k, { st2 with store := S3 }, ?_, hi3, (hx1.trans hx2).trans hx3,
             fun k' hk' => (by cases hk'; exact hb3), fun ρ hρ => ?_⟩
           · simp only [evalItems, he1, bind, Except.bind, pure, Except.pure, hk1, he2, ha, liftB]
@@ -210,8 +211,8 @@ theorem evalClause_spec {chosen : Array Bool} {M : Atom → Bool} {ev : Eval} (c
            else some (st.store.addAtom (.user ident) .normal (.prob p) none (some (.pos name))).2,
            { st with store := (st.store.addAtom (.user ident) .normal (.prob p) none (some (.pos name))).1 }) := rfl
       generalize st.store.addAtom (.user ident) .normal (.prob p) none (some (.pos name)) = R at h he
-      obtain ⟨hs, hg, hf, hd⟩ := h
-      obtain ⟨hi', hx'⟩ := hinv.store_step hs hg
+      obtain ⟨hs, hg, hn, hf, hd⟩ := h
+      obtain ⟨hi', hx'⟩ := hinv.store_step hs hg hn
       rw [hf] at he
       exact ⟨_, _, he, hi', hx', fun k hk => (by cases hk; exact hd.1), fun ρ hρ => hd.2 ρ hρ⟩
 
@@ -308,16 +309,16 @@ theorem evalGoalWith_spec {P : Prog} {natoms : Nat} {rk : Atom → Nat} {chosen 
         (fun c h => hw.nonempty a c (hmem c h)) (fun c h => hev c (hmem c h)) st hinv
       have hval : ∀ ρ, Val chosen st1.store ρ → rs.any (keyVal ρ) = M a := fun ρ hρ => by
         rw [hd1 ρ hρ, any_permute, ← hM a]
-      have hext : ∀ (k : Key) (S' : Store), Grows st1.store S' →
-          Ext st { table := (a, k) :: st1.table, store := S' } := fun k S' hg =>
-        ⟨hx1.grows.trans hg, fun b k' hb => by
+      have hext : ∀ (k : Key) (S' : Store), Grows st1.store S' → NEq st1.store S' →
+          Ext st { table := (a, k) :: st1.table, store := S' } := fun k S' hg hn =>
+        ⟨⟨hx1.grows.trans hg, fun b k' hb => by
           show lookup ((a, k) :: st1.table) b = some k'
           rw [lookup_cons]
           have hne : ¬ ((a == b) = true) := by
             intro hab
             have : a = b := by simpa using hab
             subst this; rw [hl] at hb; cases hb
-          rw [if_neg hne]; exact hx1.table b k' hb⟩
+          rw [if_neg hne]; exact hx1.table b k' hb⟩, hx1.names.trans hn⟩
       have hinv' : ∀ (k : Key) (S' : Store), SInv S' → Grows st1.store S' → Den chosen S' k (M a) →
           Inv chosen M { table := (a, k) :: st1.table, store := S' } := fun k S' hs hg hd =>
         ⟨hs, fun b k' hb => by
@@ -333,14 +334,14 @@ theorem evalGoalWith_spec {P : Prog} {natoms : Nat} {rk : Atom → Nat} {chosen 
       · have hd : Den chosen st1.store FALSE (M a) := ⟨trivial, fun ρ hρ => by
           rw [← hval ρ hρ, List.isEmpty_iff.1 hrs]; rfl⟩
         refine ⟨FALSE, { st1 with table := (a, FALSE) :: st1.table }, ?_, hinv' FALSE st1.store hi1.s (Grows.refl _) hd,
-          hext FALSE st1.store (Grows.refl _), hd⟩
+          hext FALSE st1.store (Grows.refl _) (NEq.refl _), hd⟩
         simp only [evalGoalWith, hl, hcs, he1, bind, Except.bind, pure, Except.pure, hrs, if_true]
         rfl
-      · obtain ⟨S2, k, ho, hs2, hg2, hb2, hsem⟩ := addOr_step hi1.s rs
+      · obtain ⟨S2, k, ho, hs2, hg2, hn2, hb2, hsem⟩ := addOr_step hi1.s rs
           (fun h => hrs (by rw [h]; rfl)) hb1
         have hd : Den chosen S2 k (M a) := ⟨hb2, fun ρ hρ => by
           rw [hsem ρ hρ.1]; exact hval ρ (hρ.of_grows hg2)⟩
-        refine ⟨k, { table := (a, k) :: st1.table, store := S2 }, ?_, hinv' k S2 hs2 hg2 hd, hext k S2 hg2, hd⟩
+        refine ⟨k, { table := (a, k) :: st1.table, store := S2 }, ?_, hinv' k S2 hs2 hg2 hd, hext k S2 hg2 hn2, hd⟩
         simp only [evalGoalWith, hl, hcs, he1, bind, Except.bind, pure, Except.pure, hrs, ho, liftB]
         rfl
 
@@ -356,57 +357,74 @@ theorem evalGoal_spec {P : Prog} {natoms : Nat} {rk : Atom → Nat} {chosen : Ar
 
 /-! ### `ground`, `ground_all` -/
 
-theorem mem_setNames (ns : List (Label × Name × Key)) (l : Label) (n : Name) (k : Key) :
-    (l, n, k) ∈ setNames ns l n k := by
-  induction ns with
-  | nil => simp [setNames]
-  | cons x r ih =>
-    obtain ⟨l', n', k'⟩ := x
-    unfold setNames
-    split
-    · rename_i h
-      simp only [Bool.and_eq_true, beq_iff_eq] at h
-      rw [h.1, h.2]; exact List.mem_cons_self
-    · exact List.mem_cons_of_mem _ ih
+/-- every query / evidence entry of the name table denotes the truth value of its atom -/
+def NInv (chosen : Array Bool) (M : Atom → Bool) (S : Store) : Prop :=
+  ∀ l n k, (l, n, k) ∈ S.names → l ≠ Label.named → ∃ a, n = Name.pos a ∧ Den chosen S k (M a)
 
-theorem addName_names (S : Store) (n : Name) (k : Key) (l : Label) (keep : Bool) :
-    (S.addName n k l keep).names = setNames S.names l n k := by
-  unfold Store.addName
-  simp only
-  split
-  · split
-    · split <;> rfl
-    · rfl
-  · rfl
+/-- every (label, name) pair with a query / evidence entry still has one -/
+def NKeeps (S S' : Store) : Prop :=
+  ∀ l n k, (l, n, k) ∈ S.names → l ≠ Label.named → ∃ k', (l, n, k') ∈ S'.names
 
 theorem groundOne_spec {P : Prog} {natoms : Nat} {rk : Atom → Nat} {chosen : Array Bool} {M : Atom → Bool}
     (sched : Sched) (hw : WfP P natoms rk) (hM : IsModel P chosen M) (fuel : Nat) (c : Call) (hf : rk c.atom < fuel)
-    (st : St) (hinv : Inv chosen M st) :
-    ∃ k st', groundOne P sched fuel st c = .ok (k, st') ∧ Inv chosen M st' ∧ Ext st st' ∧
-      Den chosen st'.store k (M c.atom) ∧ (c.label, Name.pos c.atom, k) ∈ st'.store.names := by
+    (st : St) (hinv : Inv chosen M st) (hnm : NInv chosen M st.store) :
+    ∃ k st', groundOne P sched fuel st c = .ok (k, st') ∧ Inv chosen M st' ∧ Ext0 st st' ∧
+      Den chosen st'.store k (M c.atom) ∧ (c.label, Name.pos c.atom, k) ∈ st'.store.names ∧
+      NInv chosen M st'.store ∧ NKeeps st.store st'.store := by
   obtain ⟨k, st1, he, hi1, hx1, hd⟩ := evalGoal_spec sched hw hM fuel c.atom hf st hinv
   have hg := addName_grows st1.store (.pos c.atom) k c.label false
-  obtain ⟨hi2, hx2⟩ := hi1.store_step (addName_sinv hi1.s (.pos c.atom) k c.label) hg
-  refine ⟨k, { st1 with store := st1.store.addName (.pos c.atom) k c.label }, ?_, hi2, hx1.trans hx2, hd.mono hg, ?_⟩
+  have hi2 : Inv chosen M { st1 with store := st1.store.addName (.pos c.atom) k c.label } :=
+    ⟨addName_sinv hi1.s (.pos c.atom) k c.label, fun a k' hl => (hi1.t a k' hl).mono hg⟩
+  refine ⟨k, { st1 with store := st1.store.addName (.pos c.atom) k c.label }, ?_, hi2,
+    ⟨hx1.grows.trans hg, hx1.table⟩, hd.mono hg, ?_, ?_, ?_⟩
   · simp only [groundOne, he, bind, Except.bind, pure, Except.pure]
   · show _ ∈ (st1.store.addName (.pos c.atom) k c.label).names
-    rw [addName_names]; exact mem_setNames _ _ _ _
+    rw [addName_names]; exact mem_setNames_self _ _ _ _
+  · intro l n k' hmem hl
+    have hmem' : (l, n, k') ∈ (st1.store.addName (.pos c.atom) k c.label).names := hmem
+    rw [addName_names] at hmem'
+    rcases mem_setNames_cases _ _ _ _ _ hmem' with h | h
+    · obtain ⟨a, rfl, hda⟩ := hnm l n k' ((hx1.names l n k' hl).1 h) hl
+      exact ⟨a, rfl, (hda.mono hx1.grows).mono hg⟩
+    · simp only [Prod.mk.injEq] at h
+      obtain ⟨rfl, rfl, rfl⟩ := h
+      exact ⟨c.atom, rfl, hd.mono hg⟩
+  · intro l n k0 hmem hl
+    have h1 : (l, n, k0) ∈ st1.store.names := (hx1.names l n k0 hl).2 hmem
+    obtain ⟨k1, hk1⟩ := setNames_keeps st1.store.names c.label (.pos c.atom) k l n k0 h1
+    refine ⟨k1, ?_⟩
+    show _ ∈ (st1.store.addName (.pos c.atom) k c.label).names
+    rw [addName_names]; exact hk1
 
 theorem groundAll_spec {P : Prog} {natoms : Nat} {rk : Atom → Nat} {chosen : Array Bool} {M : Atom → Bool}
     (sched : Sched) (hw : WfP P natoms rk) (hM : IsModel P chosen M) (fuel : Nat) :
-    ∀ (calls : List Call), (∀ c ∈ calls, rk c.atom < fuel) → ∀ st, Inv chosen M st →
-      ∃ ks st', groundAll P sched fuel calls st = .ok (ks, st') ∧ Inv chosen M st' ∧ Ext st st' ∧
+    ∀ (calls : List Call), (∀ c ∈ calls, rk c.atom < fuel) → (∀ c ∈ calls, c.label ≠ Label.named) →
+      ∀ st, Inv chosen M st → NInv chosen M st.store →
+      ∃ ks st', groundAll P sched fuel calls st = .ok (ks, st') ∧ Inv chosen M st' ∧ Ext0 st st' ∧
         ks.length = calls.length ∧
-        ∀ i (hc : i < calls.length) (hk : i < ks.length), Den chosen st'.store ks[i] (M calls[i].atom)
-  | [], _, st, hinv => ⟨[], st, rfl, hinv, Ext.refl st, rfl, fun i hc _ => absurd hc (Nat.not_lt_zero i)⟩
-  | c :: cs, hf, st, hinv => by
-    obtain ⟨k, st1, he1, hi1, hx1, hd1, _⟩ := groundOne_spec sched hw hM fuel c (hf c List.mem_cons_self) st hinv
-    obtain ⟨ks, st2, he2, hi2, hx2, hlen, hd2⟩ := groundAll_spec sched hw hM fuel cs
-      (fun c' h => hf c' (List.mem_cons_of_mem _ h)) st1 hi1
-    refine ⟨k :: ks, st2, ?_, hi2, hx1.trans hx2, by simp [hlen], fun i hc hk => ?_⟩
+        (∀ i (hc : i < calls.length) (hk : i < ks.length), Den chosen st'.store ks[i] (M calls[i].atom)) ∧
+        NInv chosen M st'.store ∧ NKeeps st.store st'.store ∧
+        ∀ c ∈ calls, ∃ k, (c.label, Name.pos c.atom, k) ∈ st'.store.names
+  | [], _, _, st, hinv, hnm =>
+    ⟨[], st, rfl, hinv, Ext0.refl st, rfl, fun i hc _ => absurd hc (Nat.not_lt_zero i), hnm,
+      fun l n k h _ => ⟨k, h⟩, fun _ h => (by cases h)⟩
+  | c :: cs, hf, hlab, st, hinv, hnm => by
+    obtain ⟨k, st1, he1, hi1, hx1, hd1, hmem1, hnm1, hkeep1⟩ := groundOne_spec sched hw hM fuel c
+      (hf c List.mem_cons_self) st hinv hnm
+    obtain ⟨ks, st2, he2, hi2, hx2, hlen, hd2, hnm2, hkeep2, hcalls2⟩ := groundAll_spec sched hw hM fuel cs
+      (fun c' h => hf c' (List.mem_cons_of_mem _ h)) (fun c' h => hlab c' (List.mem_cons_of_mem _ h)) st1 hi1 hnm1
+    refine ⟨k :: ks, st2, ?_, hi2, hx1.trans hx2, by simp [hlen], fun i hc hk => ?_, hnm2, ?_, ?_⟩
     · simp only [groundAll, he1, bind, Except.bind, pure, Except.pure, he2]
     · cases i with
       | zero => exact hd1.mono hx2.grows
       | succ i => exact hd2 i (by simpa using hc) (by simpa using hk)
+    · intro l n k0 hm hl
+      obtain ⟨k1, h1⟩ := hkeep1 l n k0 hm hl
+      exact hkeep2 l n k1 h1 hl
+    · intro c' hc'
+      rcases List.mem_cons.1 hc' with h | h
+      · subst h
+        exact hkeep2 _ _ _ hmem1 (hlab _ List.mem_cons_self)
+      · exact hcalls2 c' h
 
 end ProbLogProofs.GroundEval
